@@ -96,7 +96,15 @@ def merge_vertices(
         stacked.append(normals * (10**digits_norm))
 
     # stack collected vertex properties and round to integer
-    stacked = np.column_stack(stacked).round().astype(np.int64)
+    stacked = np.column_stack(stacked).round()
+    if np.isfinite(stacked).all() and np.abs(stacked).max() < 2**63:
+        stacked = stacked.astype(np.int64)
+    else:
+        # values that don't fit an int64 (or aren't finite) would all be
+        # cast to the same integer and merge vertices which are far apart:
+        # they are whole numbers already so compare the bits of the floats
+        # where adding zero folds `-0.0` into `0.0`
+        stacked = (stacked + 0.0).view(np.int64)
 
     # check unique rows of referenced vertices
     u, i = unique_rows(stacked[referenced], keep_order=True)
